@@ -18,6 +18,7 @@ package ref
 
 import (
 	"fmt"
+	"os"
 	"reflect"
 	"runtime"
 	"runtime/debug"
@@ -52,9 +53,10 @@ type C33Decoder struct {
 
 // C33Config holds the bounds.
 type C33Config struct {
-	MaxLen      int      // all byte strings of length <= MaxLen
-	CraftedLens []uint64 // values spliced into every length prefix of every catalogue entry
-	AllocAll    bool     // measure allocation on the deviation neighbourhoods too (otherwise: valid, crafted, all short strings)
+	MaxLen       int      // all byte strings of length <= MaxLen
+	CraftedScale []uint64 // values spliced into every SCALE length prefix of every catalogue entry
+	CraftedPB    []uint64 // values spliced into every protobuf length prefix of every catalogue entry
+	AllocAll     bool     // measure allocation on the deviation neighbourhoods too (otherwise: valid, crafted, all short strings)
 }
 
 const (
@@ -64,10 +66,11 @@ const (
 )
 
 type c33Input struct {
-	dec   int
-	data  []byte
-	label string // how the input was derived (for replay/signatures)
-	shape string // short class of derivation: "short", "valid", "trunc", "subst", "append", "crafted:<what>"
+	seqOnly bool // scheduling: run single-threaded
+	dec     int
+	data    []byte
+	label   string // how the input was derived (for replay/signatures)
+	shape   string // short class of derivation: "short", "valid", "trunc", "subst", "append", "crafted:<what>"
 }
 
 // ---------------------------------------------------------------- canonical dump of a decoded message
@@ -205,6 +208,53 @@ func c33PathClass(line string) string {
 
 // ---------------------------------------------------------------- evaluation of one input
 
+// c33DeepSize sums the payload bytes reachable from v (slices, strings, arrays of scalars); it stops
+// as soon as the sum exceeds limit.
+func c33DeepSize(v reflect.Value, limit, depth int) int {
+	if !v.IsValid() || depth > 40 {
+		return 0
+	}
+	switch v.Kind() {
+	case reflect.Ptr, reflect.Interface:
+		if v.IsNil() {
+			return 0
+		}
+		return c33DeepSize(v.Elem(), limit, depth+1)
+	case reflect.Struct:
+		n := 0
+		for i := 0; i < v.NumField() && n <= limit; i++ {
+			n += c33DeepSize(v.Field(i), limit-n, depth+1)
+		}
+		return n
+	case reflect.String:
+		return v.Len()
+	case reflect.Slice, reflect.Array:
+		switch v.Type().Elem().Kind() {
+		case reflect.Uint8, reflect.Int8, reflect.Bool:
+			return v.Len()
+		case reflect.Uint16, reflect.Int16:
+			return 2 * v.Len()
+		case reflect.Uint32, reflect.Int32:
+			return 4 * v.Len()
+		case reflect.Uint64, reflect.Int64, reflect.Uint, reflect.Int:
+			return 8 * v.Len()
+		}
+		n := int(v.Type().Elem().Size()) * v.Len()
+		for i := 0; i < v.Len() && n <= limit; i++ {
+			n += c33DeepSize(v.Index(i), limit-n, depth+1)
+		}
+		return n
+	case reflect.Map:
+		n := 0
+		it := v.MapRange()
+		for it.Next() && n <= limit {
+			n += c33DeepSize(it.Key(), limit-n, depth+1) + c33DeepSize(it.Value(), limit-n, depth+1)
+		}
+		return n
+	}
+	return int(v.Type().Size())
+}
+
 type c33Eval struct {
 	dumpLines int // size of the canonical dump of the decoded message (a cheap class of its shape)
 	outcome   string
@@ -234,6 +284,13 @@ func c33EvalOne(d *C33Decoder, in []byte) (ev c33Eval) {
 	if msg == nil || (reflect.ValueOf(msg).Kind() == reflect.Ptr && reflect.ValueOf(msg).IsNil()) {
 		return c33Eval{outcome: "nil-message-nil-error", sig: d.Name + ":neither-message-nor-error",
 			desc: fmt.Sprintf("%s returns a nil message and a nil error for input %s", d.Name, c33Short(in))}
+	}
+	// A decoded message that holds more bytes than the allocation bound is by itself a witness of the
+	// memory clause (retained memory, no measurement needed); it is not re-encoded (a 46 MB body from a
+	// 122-byte input takes seconds to encode and says nothing new).
+	if bound := c33AllocPerB*len(in) + c33AllocSlack; c33DeepSize(reflect.ValueOf(msg), bound, 0) > bound {
+		return c33Eval{outcome: "ok(message-larger-than-allocation-bound)", sig: d.Name + ":allocation-not-proportional-to-input:decoded-message-larger-than-bound",
+			desc: fmt.Sprintf("%s decodes the %d-byte input %s into a message holding more than %d bytes (bound 64*len+256 KiB)", d.Name, len(in), c33Short(in), bound)}
 	}
 	if d.Observe != nil {
 		if p, _ := verifmc.Guard(func() { d.Observe(msg) }); p {
@@ -311,6 +368,7 @@ type c33Seg struct {
 	valid *C33Valid // nil: all short byte strings
 	n     int
 	base  int
+	risky map[int]bool // offsets whose substitution into a multi-byte compact mode may declare > 1 MiB
 }
 
 type c33Space struct {
@@ -334,15 +392,38 @@ func c33BuildSpace(decs []C33Decoder, cfg C33Config) (sp c33Space, seq []c33Inpu
 			n := 1 + c33DevCount(len(v.Enc.B))
 			sp.segs = append(sp.segs, c33Seg{dec: di, valid: v, n: n, base: sp.total})
 			sp.total += n
-			for _, m := range v.Enc.Marks {
-				for _, n := range cfg.CraftedLens {
-					full := C14Splice(v.Enc.B, m, n)
-					seq = append(seq, c33Input{dec: di, data: full, shape: "crafted:" + m.Kind + ":" + m.What,
+			for mi, m := range v.Enc.Marks {
+				if m.Kind == "scale-bytes-len" {
+					// scheduling only (not an oracle): when one substitution of the prefix's first byte can
+					// declare more than 1 MiB (the following bytes become the high bytes of the length),
+					// those substitutions are executed in the single-threaded phase instead of 16 at a time
+					at := func(i int) uint64 {
+						if m.Off+i < len(v.Enc.B) {
+							return uint64(v.Enc.B[m.Off+i])
+						}
+						return 0
+					}
+					v2 := (0xfe | at(1)<<8 | at(2)<<16 | at(3)<<24) >> 2
+					v3 := at(1) | at(2)<<8 | at(3)<<16 | at(4)<<24
+					if v2 > 1<<20 || v3 > 1<<20 {
+						if sp.segs[len(sp.segs)-1].risky == nil {
+							sp.segs[len(sp.segs)-1].risky = map[int]bool{}
+						}
+						sp.segs[len(sp.segs)-1].risky[m.Off] = true
+					}
+				}
+				lens := cfg.CraftedScale
+				if m.Kind == "pb-len" {
+					lens = cfg.CraftedPB
+				}
+				for _, n := range lens {
+					full := C14SpliceNested(v.Enc.B, v.Enc.Marks, mi, n)
+					seq = append(seq, c33Input{dec: di, data: full, shape: "crafted:" + m.Kind,
 						label: fmt.Sprintf("valid %s with the %s of %s at offset %d replaced by %d", v.Name, m.Kind, m.What, m.Off, n)})
 					// the crafted prefix followed by at most 3 payload bytes
-					end := m.Off + (len(full) - len(v.Enc.B) + m.Width) + 3
-					if end < len(full) {
-						seq = append(seq, c33Input{dec: di, data: full[:end], shape: "crafted:" + m.Kind + ":" + m.What,
+					end := m.Off + len(C14Splice(v.Enc.B, m, n)) - len(v.Enc.B) + m.Width + 3
+					if end < len(full) && len(full) == len(C14Splice(v.Enc.B, m, n)) {
+						seq = append(seq, c33Input{dec: di, data: full[:end], shape: "crafted:" + m.Kind,
 							label: fmt.Sprintf("valid %s with the %s of %s at offset %d replaced by %d, cut after 3 payload bytes", v.Name, m.Kind, m.What, m.Off, n)})
 					}
 				}
@@ -364,7 +445,7 @@ func (sp *c33Space) at(idx int) c33Input {
 		return c33Input{dec: s.dec, data: s.valid.Enc.B, shape: "valid", label: "valid " + s.valid.Name}
 	}
 	dv := c33DevAt(s.valid.Enc.B, loc-1)
-	return c33Input{dec: s.dec, data: dv.Data, shape: dv.Kind,
+	return c33Input{seqOnly: dv.Kind == "subst" && s.risky[dv.Pos] && dv.Val&3 >= 2, dec: s.dec, data: dv.Data, shape: dv.Kind,
 		label: fmt.Sprintf("%s of valid %s at %d (%02x)", dv.Kind, s.valid.Name, dv.Pos, dv.Val)}
 }
 
@@ -413,10 +494,44 @@ func C33SelfCheck() error {
 
 // ---------------------------------------------------------------- the run
 
-// C33Run executes every phase and fills the report.
-func C33Run(r *verifmc.Report, decs []C33Decoder, cfg C33Config) {
+// C33Rule describes the enumeration for the evidence file.
+func C33Rule(cfg C33Config) string {
+	return fmt.Sprintf("per decoder: every byte string of length <= %d; for every catalogue entry (a valid encoding written by the reference writer) the entry itself, every truncation, every single-byte substitution (255 values per position) and one appended byte (00, 01, ff); "+
+		"every SCALE length prefix of every entry replaced by %v and every protobuf length prefix by %v (enclosing protobuf lengths kept consistent), each also cut 3 bytes after the crafted prefix; "+
+		"a case is non-trivial when the decoder does not reject it; distinct = (decoder, derivation, outcome, size of the decoded message's dump)", cfg.MaxLen, cfg.CraftedScale, cfg.CraftedPB)
+}
+
+// C33Assumptions lists the trusted base.
+func C33Assumptions() []string {
+	return []string{
+		"allocation is read from runtime.MemStats.TotalAlloc with no other goroutine of the harness running; bound 64*len+256 KiB, minimum of two runs",
+		"a hang is 20 s without progress on one input (normal cost: microseconds)",
+		"equality of messages: every field, unexported ones included, nil and empty slices identified, Header.hash cache ignored",
+	}
+}
+
+// C33Run executes every phase and fills the report.  It returns the catalogue entries their own
+// decoder rejects (a harness invariant: honest inputs must be accepted or the neighbourhoods are vacuous).
+func C33Run(r *verifmc.Report, decs []C33Decoder, cfg C33Config) (rejected []string) {
 	if err := C33SelfCheck(); err != nil {
 		panic("C33 self check: " + err.Error())
+	}
+	for di := range decs {
+		for _, v := range decs[di].Catalogue {
+			var err error
+			if p, _ := verifmc.Guard(func() { _, err = decs[di].Decode(append([]byte{}, v.Enc.B...)) }); !p && err != nil {
+				rejected = append(rejected, fmt.Sprintf("%s: %s: %v", decs[di].Name, v.Name, err))
+			}
+		}
+	}
+	if only := os.Getenv("VERIF_C33_ONLY"); only != "" { // debugging aid: restrict to decoders whose name contains the value
+		var f []C33Decoder
+		for _, d := range decs {
+			if strings.Contains(d.Name, only) {
+				f = append(f, d)
+			}
+		}
+		decs = f
 	}
 	sp, seq := c33BuildSpace(decs, cfg)
 	r.Add("decoders", int64(len(decs)))
@@ -443,6 +558,9 @@ func C33Run(r *verifmc.Report, decs []C33Decoder, cfg C33Config) {
 			map[string]any{"decoder": decs[in.dec].Name, "input_hex": verifmc.Hex(in.data), "derivation": in.label})
 	}
 
+	var defMu sync.Mutex
+	var deferred []int
+	tA := time.Now()
 	// phase A: parallel, chunked watchdog (20 s without progress on one element = hang)
 	const chunk = 1024
 	nChunks := (sp.total + chunk - 1) / chunk
@@ -462,6 +580,12 @@ func C33Run(r *verifmc.Report, decs []C33Decoder, cfg C33Config) {
 				atomic.StoreInt64(&cur, int64(i))
 				if atomic.LoadInt32(&hung[ins[i-lo].dec]) != 0 {
 					evs[i-lo] = c33Eval{outcome: "skipped-after-hang"}
+					continue
+				}
+				if ins[i-lo].seqOnly {
+					defMu.Lock()
+					deferred = append(deferred, i)
+					defMu.Unlock()
 					continue
 				}
 				evs[i-lo] = c33EvalOne(&decs[ins[i-lo].dec], ins[i-lo].data)
@@ -491,16 +615,29 @@ func C33Run(r *verifmc.Report, decs []C33Decoder, cfg C33Config) {
 				tick.Reset(c33Watchdog)
 			}
 		}
+		n := 0
 		for i := lo; i < hi; i++ {
-			record(&ins[i-lo], evs[i-lo])
+			if !ins[i-lo].seqOnly || evs[i-lo].outcome != "" {
+				record(&ins[i-lo], evs[i-lo])
+				n++
+			}
 		}
-		r.Add("evaluations", int64(hi-lo))
+		r.Add("evaluations", int64(n))
 	}, func(c int, msg string) {
 		r.Violate("harness:panic-outside-guard", msg, map[string]any{"chunk": c})
 	})
 
+	r.Extra["phase_parallel_s"] = time.Since(tA).Seconds()
+	tB := time.Now()
 	// phase B: single-threaded.  (1) crafted lengths: evaluated here only (a 1 GiB allocation per worker is
 	// not something to run 16 at a time); (2) allocation of every selected input.
+	sort.Ints(deferred)
+	for _, idx := range deferred {
+		in := sp.at(idx)
+		in.label += " (run single-threaded: may declare a large length)"
+		seq = append(seq, in)
+	}
+	r.Add("deferred_to_single_thread", int64(len(deferred)))
 	for i := range seq {
 		if r.Expired() {
 			r.Capped(fmt.Sprintf("deadline in the crafted-length phase: %d of %d", i, len(seq)))
@@ -522,9 +659,15 @@ func C33Run(r *verifmc.Report, decs []C33Decoder, cfg C33Config) {
 		}
 		record(in, ev)
 		r.Add("evaluations", 1)
-		r.Add("crafted_length_inputs", 1)
+		if strings.HasPrefix(in.shape, "crafted") {
+			r.Add("crafted_length_inputs", 1)
+		}
 	}
+	r.Extra["phase_crafted_s"] = time.Since(tB).Seconds()
+	tC := time.Now()
 	c33AllocPhase(r, decs, cfg, &sp, seq, hung)
+	r.Extra["phase_alloc_s"] = time.Since(tC).Seconds()
+	return rejected
 }
 
 var c33Sink any
